@@ -1920,7 +1920,11 @@ func (m *matrix) unitGroups(fns []*ssa.Function, u unit) []groupDeps {
 	var out []groupDeps
 	for _, fn := range fns {
 		g := groupDeps{fn: fn, root: m.anchors[fn]}
+		miss := tableMissBlocks(fn)
 		for _, s := range m.sitesOf(fn) {
+			if miss[s.instr.Block()] {
+				continue // reached only when the field's type has no row in the scalar table: not the emission of any grammatical type
+			}
 			st, f := m.stateAt(fn, s.instr.Block())
 			if f == nil || st.empty() || !st.admits(u) {
 				continue
@@ -2164,4 +2168,46 @@ func fieldsReadOfParam(fn *ssa.Function, p *ssa.Parameter) (idxs []int, all bool
 	}
 	sort.Ints(idxs)
 	return idxs, all
+}
+
+// tableMissBlocks: the blocks of fn dominated by the miss edge of a comma-ok lookup in a scalar type table (xBasicTypeMap[typ]).
+// Every grammatical scalar type has a row (table-agreement rule), so text emitted there belongs to no cell.
+func tableMissBlocks(fn *ssa.Function) map[*ssa.BasicBlock]bool {
+	out := map[*ssa.BasicBlock]bool{}
+	for _, b := range fn.Blocks {
+		cond := branchCond(b)
+		if cond == nil {
+			continue
+		}
+		val := true
+		for {
+			if u, ok := cond.(*ssa.UnOp); ok && u.Op == token.NOT {
+				cond, val = u.X, !val
+				continue
+			}
+			break
+		}
+		ex, ok := cond.(*ssa.Extract)
+		if !ok || ex.Index != 1 {
+			continue
+		}
+		lk, ok := ex.Tuple.(*ssa.Lookup)
+		if !ok || !lk.CommaOk {
+			continue
+		}
+		g, ok := valueRoot(lk.X).(*ssa.Global)
+		if !ok || !strings.HasSuffix(g.Name(), "BasicTypeMap") {
+			continue
+		}
+		missSucc := 1
+		if !val {
+			missSucc = 0
+		}
+		for _, bb := range fn.Blocks {
+			if edgeDominates(b, missSucc, bb) {
+				out[bb] = true
+			}
+		}
+	}
+	return out
 }
